@@ -166,6 +166,15 @@ def tfDeterministic (T : Table) : Bool := T.all fun e => e.2.all fun f => decide
 /-- `self._transition_function(q, a)` -/
 def call (T : Table) (q : Nat) (a : Option Nat) : List Nat := (lookup T q a).getD []
 
+/-- the constructor called with a transition function that was filled beforehand: its states and
+symbols are registered as `add_transition` would have done (since the repair; before it they were
+not, and every method that iterates `_input_symbols` or `_states` ignored the transitions) -/
+def mkT (det : Bool) (states syms starts finals : List Nat) (T : Table) : Obj :=
+  let o := mk det states syms starts finals
+  { o with trans := T
+           states := (o.states ++ (edges T).flatMap fun t => [t.1, t.2.2]).eraseDups
+           syms := (o.syms ++ (edges T).filterMap (·.2.1)).eraseDups }
+
 /-- the value the object stands for -/
 def toENFA (o : Obj) : ENFA Nat :=
   { states := o.states, syms := o.syms, starts := o.starts, finals := o.finals, delta := edges o.trans }
